@@ -862,6 +862,25 @@ fn gen_c14(ctx: &mut Ctx) {
             }
             scripted.extend([format!("QS.{}", a0), format!("HE.{}", a0)]);
         }
+        if wk % 4 == 2 {
+            // ... and every fourth walk with each sign in turn being asked to receive (a configuration or pixels, with or without
+            // a first chunk), dropped (goodbye, the reset dance, or just left), and then taken through a whole configuration
+            // and a whole one-page transfer: whatever the BUS remembers about who is receiving must follow the signs
+            for (i, a) in addrs.iter().enumerate() {
+                let v = wk / 4 + i;
+                scripted.push_back(format!("RO.{}.{}", a, if v % 2 == 0 { "RCF" } else { "RPX" }));
+                if v % 3 == 1 {
+                    scripted.push_back(format!("SD.0.{}", blocks[2].0));
+                }
+                match v % 4 {
+                    0 | 3 => scripted.push_back(format!("GB.{}", a)),
+                    1 => scripted.extend([format!("RO.{}.SRS", a), format!("HE.{}", a), format!("RO.{}.FRS", a), format!("HE.{}", a)]),
+                    _ => {}
+                }
+                scripted.extend([format!("RO.{}.RCF", a), format!("SD.0.{}", blocks[2].0), "DC.1".to_string(), format!("QS.{}", a)]);
+                scripted.extend([format!("RO.{}.RPX", a), format!("SD.0.{}", hex_of_bytes(&[i as u8, 0x10, 0, 0, 1, 2, 3, 4, 5, 6, 7, 8, 0xFF, 0xFF, 0xFF, 0xFF])), "DC.1".to_string(), format!("QS.{}", a), format!("PC.{}", a), format!("QS.{}", a)]);
+            }
+        }
         for _ in 0..steps {
             let target = if rng.chance(1, 8) { *rng.pick(&absent).max(&if addrs.contains(&0) { 9 } else { 0 }) } else { *rng.pick(&addrs) };
             let ti = addrs.iter().position(|a| *a == target);
